@@ -515,7 +515,14 @@ pub fn run(ctx: &Ctx) -> (Vec<Case>, String, bool, BTreeMap<String, String>) {
     // of order, with the heap watched during the call
     let mut snd = crate::c20_cmd::sound_cases(ctx, "C09", ctx.tier.pick(300, 5000));
     for c in snd.iter_mut() {
-        c.oracle_failures.retain(|f| f.starts_with("[C09]"));
+        // (a blocking transfer that returns while chunks of its own are still posted has released their status
+        // words — they live in its stack frame — under a live device)
+        c.oracle_failures.retain(|f| f.starts_with("[C09]") || f.contains("buffers still shared"));
+        for f in c.oracle_failures.iter_mut() {
+            if !f.starts_with("[C09]") {
+                *f = format!("[C09] {} (their status words were in the returning call's frame)", f);
+            }
+        }
         c.id = format!("C09-via-{}", c.id);
         c.tag("driver-level");
     }
